@@ -128,6 +128,13 @@ func vh_SRV() {
 		vAssert(vAnd(len(r.operationManager.pendingReplicated) == 0, len(r.operationManager.pendingReadOnly) == 0), "C03.new-leader-starts-with-empty-tables")
 		vAssert(post.term == roundTerm, "C02.leader-of-the-round-the-votes-belong-to")
 	}
+	// C15.elect (progress): the reply that completes a majority of voters' grants for the round's term elects
+	if resp.VoteGranted && !prevote && mid.state == Candidate && mid.term == sent.Term && votes == votes0+1 {
+		vAssert(vImplies(2*votes > nv, post.state == Leader), "C15.quorum-of-grants-elects-the-candidate")
+	}
+	if resp.VoteGranted && prevote && mid.state == PreCandidate && mid.term+1 == sent.Term && votes == votes0+1 {
+		vAssert(vImplies(2*votes > nv, post.state == Candidate), "C15.quorum-of-prevotes-starts-the-candidacy")
+	}
 	if post.state == Candidate && mid.state == PreCandidate {
 		vCover("prevote-won")
 		vAssert(prevote, "C16.candidacy-only-after-prevote-quorum")
